@@ -442,7 +442,31 @@ def t_keywords(tu, t):
     s += 'def n_classes : Nat := %d\n' % len(on.classes)
     return s
 
+HANDLE_RE = re.compile(r'\b(Ref|Map|ConstGenericMatrix|ConstGenericSparseMatrix|reference_wrapper|shared_ptr|unique_ptr|weak_ptr|function)\b')
+def t_handles(tu, t):
+    """every data member of every Spectra class that does not OWN its value: raw reference / pointer members and non-owning or
+    shared handles (Eigen::Ref / Map and the library's ConstGeneric* aliases of them, reference_wrapper, smart pointers,
+    std::function).  These are the only places where something outside the object can influence a later call."""
+    a = analysis(tu)
+    res = []
+    for sc in ('off', 'on'):
+        for cname, infos in a[sc].classes.items():
+            for info in infos:
+                al = dict(info['aliases'])
+                for f in info['fields']:
+                    how = hold_kind(f['q'])
+                    full = expand_aliases(f['q'], al) + ' | ' + f['dq']
+                    if how == 'value':
+                        m = HANDLE_RE.search(full)
+                        if not m: continue
+                        how = 'handle:' + m.group(1)
+                    res.append((cname, f['name'], how, f['q']))
+    res = sorted(set(res))
+    s = '-- (class, member, how, declared type); how = ref | cref | ptr | handle:<kind>\n'
+    s += 'def handle_members : List (String × String × String × String) := ' + llist(['(%s, %s, %s, %s)' % tuple(lstr(x) for x in r) for r in res]) + '\n'
+    return s
+
 FOOT = [dict(lean=n, header='*', custom=f, path='*') for n, f in
         (('statics', t_statics), ('mutable_members', t_mutable), ('wrappers', t_wrappers), ('holders', t_holders),
-         ('blacklist_uses', t_blacklist), ('keywords', t_keywords))]
+         ('blacklist_uses', t_blacklist), ('keywords', t_keywords), ('handle_members', t_handles))]
 MODULES = [('Footprint', FOOT, '')]
